@@ -23,8 +23,12 @@ META = {
 META["explanation"] += " R19.3 also requires all construction sites of one subscriber-state type to store the same number of owned references (a clone that owns fewer, e.g. a lazily boxed lock future, makes the counts depend on the handles' history)."
 META["explanation"] += ' R19.4 also sees SharedReadLock::downgrade; R19.7 also sees replacement through Clone::clone_from / mem::replace / swap / take.'
 META["explanation"] += ' R19.8 ManuallyDrop ledger: every owned share of the owner counter made in a function (clone of the field, ManuallyDrop::new of a fresh / upgraded Arc) is moved into the counter field of a constructed SharedObservable or released explicitly; a value that only gets borrowed leaks one count per call. R19.9 type ledger: no type other than the counted handles has a field that owns a state reference (Arc / SharedReadLock / Owned*Guard), and the guard types chosen by the Lock impls borrow.'
+META["explanation"] += " R19.10 (async flavour) the completed lock future is re-armed before anything that can run foreign code (the value's Clone, the waker's clone, a closure): a panic in between leaves the subscriber with one reference for the rest of its life. R19.11 no hidden handles: a clone of a SharedObservable / Subscriber made inside the crate is not moved into a closure / future the function returns."
 
 SH = "shared::SharedObservable<"
+
+
+from .c03 import FALLBACK
 
 
 def run(ctx):
@@ -41,6 +45,14 @@ def run(ctx):
     r19_7(ctx, counter)
     r19_8(ctx, counter)
     r19_9(ctx)
+    r19_11(ctx)
+    if ctx.has_async:
+        from . import wakers
+        k = 0
+        for f, sites in wakers.poll_fns(F, (EY,)):
+            if "async_lock" in f.path:
+                k += wakers.check_rearm_immediate(ctx, "R19.10", f, sites)
+        ctx.floor("R19.10", k, 1)
 
 
 def r19_1(ctx, counter):
@@ -85,7 +97,7 @@ def r19_1(ctx, counter):
                 e = b.expr_of_op(op)
                 src = find_all(e, lambda x: x[0] == "call" and ecall_matches(x, r"Clone>?::clone$|Arc::<.*>::clone$|Weak::<.*>::upgrade$"))
                 good = [c for c in src if c[3] and mentions_field(c[3][0], name) and contains(c[3][0], lambda y: y[0] == "param" and y[1] == 1)]
-                fresh = find_all(e, lambda x: x[0] == "call" and ecall_matches(x, r"Arc::<.*>::new$|Default>?::default$"))
+                fresh = find_all(e, lambda x: x[0] == "call" and ecall_matches(x, r"Arc::<.*>::new$|Default>?::default$|" + FALLBACK))
                 opaque = own_closure and contains(e, lambda y: y[0] == "param" and y[1] >= 2) and not fresh
                 ok = bool(good) and not fresh
                 ctx.verdict(None if (not ok and opaque) else ok, "R19.1", root_fn(F, f), "field-from-same-family:%s" % name, b.line_at(loc), "`%s` = clone/upgrade of self.%s" % (name, name),
@@ -402,3 +414,71 @@ def r19_9(ctx):
             else:
                 ctx.holds("R19.9", "impl:" + im["self_ty"], "guard-type-borrows:%s" % at["name"], where, "`%s` borrows the lock" % at["ty"])
     ctx.floor("R19.9", n, 6)
+
+
+
+def move_sinks(b, start):
+    """where an owned value ends up by moves: list of ("agg", kind, name) | ("call", callee) | ("ret",)."""
+    S = {start}
+    sinks = []
+    changed = True
+    while changed:
+        changed = False
+        for loc, s_ in b.iter_stmts():
+            if s_["k"] != "assign":
+                continue
+            rv = s_["rv"]
+            ops = [rv.get("op"), rv.get("x")] + list(rv.get("ops") or [])
+            if not any(isinstance(o, dict) and o.get("k") in ("move", "copy") and o["place"]["l"] in S and not o["place"]["proj"] for o in ops):
+                continue
+            if rv["k"] == "agg" and rv.get("of") != "tuple":
+                sk = ("agg", rv.get("of"), rv.get("adt") or rv.get("def"))
+                if sk not in sinks:
+                    sinks.append(sk)
+                    changed = True
+                continue
+            dl = s_["place"]["l"]
+            if dl == 0 and ("ret",) not in sinks:
+                sinks.append(("ret",))
+            if dl not in S:
+                S.add(dl)
+                changed = True
+        for blk, t in b.calls():
+            if any(a.get("k") == "move" and a["place"]["l"] in S and not a["place"]["proj"] for a in t["args"]):
+                sk = ("call", t.get("callee") or "?")
+                if sk not in sinks:
+                    sinks.append(sk)
+    return sinks
+
+
+def r19_11(ctx):
+    """the library does not keep handles of its own: a clone of a SharedObservable (or Subscriber) made inside the crate is either the
+    value a public function returns as such a handle, or it is a hidden holder - moved into a future / closure it is counted by
+    observable_count / strong_count for as long as that future exists, although the user never made a handle."""
+    F = ctx.facts
+    n = 0
+    for f in F.find(crate=EY):
+        b = f.built
+        if not b:
+            continue
+        for blk, t in b.calls(r"Clone>?::clone$"):
+            if t["dest"]["proj"]:
+                continue
+            ty = str(b.locals[t["dest"]["l"]]["ty"])
+            if not re.match(r"(shared::SharedObservable|subscriber::Subscriber)<", ty):
+                continue
+            n += 1
+            sinks = move_sinks(b, t["dest"]["l"])
+            hidden = [x for x in sinks if x[0] == "agg" and x[1] in ("closure", "coroutine", "coroutine_closure")]
+            root = root_fn(F, f)
+            where = b.line_at((blk, 10 ** 6))
+            if hidden:
+                ctx.violated("R19.11", root, "no-hidden-handle", where,
+                             "`%s` clones a `%s` and moves the clone into the %s it returns: every such future / closure that exists is counted as a handle (observable_count and strong_count are too high while it lives - e.g. while it waits for the lock)" % (
+                                 root.path, ty.split("<")[0], hidden[0][1]))
+            elif sinks == [("ret",)] or not sinks:
+                ctx.holds("R19.11", root, "no-hidden-handle", where, "the clone is the returned handle / a temporary")
+            else:
+                ctx.undecided("R19.11", root, "no-hidden-handle", where, "the clone flows into %s" % (sinks,))
+    if n == 0:
+        ctx.holds("R19.11", None, "no-hidden-handle", None, "no function of the crate clones a SharedObservable / Subscriber handle for itself")
